@@ -247,14 +247,19 @@ def line_events(hist, texts, intern, tabs=8, git_prefix=None):
     """Per-line records for the trace (mechanical: split marker / payload, intern bytes)."""
     evs = []
     kd = ""
+    prev = ""
     for l, t in zip(hist, texts):
         c = l["c"]
+        lone_subp = c == "subp" and prev != "subm"      # an added submodule: an ordinary added line
+        prev = c
         if c == "diff":
             kd = l.get("kd", "")
         comb = kd == "cc"
         if c in ("minus", "plus", "zero", "cin") and comb:
             pre, pay = t[:2], t[2:]
         elif c in ("minus", "plus", "zero", "minus3", "plus3"):
+            pre, pay = t[:1], t[1:]
+        elif lone_subp:
             pre, pay = t[:1], t[1:]
         elif c in ("subm", "subp"):
             pre, pay = t[:1], t[len("-Subproject commit "):]
